@@ -24,6 +24,7 @@ type simcfg struct {
 	fairTail int
 	cache    int
 	faults   bool
+	advsigs  bool
 	dagrun   bool
 	badgerCache int
 	ff       bool
@@ -51,6 +52,7 @@ type hist struct {
 	leaving          map[int]bool
 	nextNodeID       int
 	weights          []float64
+	c09              *c09state // C09 oracle / adversarial signature stream (oracles_c09.go, advsigs.go)
 	witnessBatch     int
 	tmpDirs          []string
 	badger           *hg.BadgerStore
@@ -85,7 +87,7 @@ func (h *hist) pull(a, b *hx.Node, limit int, lose bool) {
 	}
 	ran := false
 	if err == nil || hg.IsNormalSelfParentError(err) {
-		if perr := a.Core.ProcessSigPool(); perr != nil {
+		if perr := h.processSigPool(a); perr != nil {
 			h.actions["sigpool-error"]++
 		}
 		ran = true
@@ -107,6 +109,7 @@ func (h *hist) after(a *hx.Node, sigPoolRan bool) {
 		// after which the core is wedged; that configuration is outside C05's quantifier)
 		h.conservation(a)
 	}
+	h.c09Oracle(a)
 	if h.cfg.dyn {
 		h.peerSetOracle(a)
 		h.resetPeerSetOracle(a)
@@ -301,6 +304,9 @@ func runHistory(out *bufio.Writer, seed int64, hid int, cfg simcfg) (stats map[s
 	for i := 0; i < cfg.n; i++ {
 		genesis = append(genesis, w.AddKey())
 	}
+	if cfg.advsigs {
+		genesis = append(genesis, h.advInit()) // extra validator X, driven by the harness only
+	}
 	h.genesis = genesis
 	h.nextNodeID = cfg.n
 	for i := 0; i < cfg.n; i++ {
@@ -382,6 +388,9 @@ func runHistory(out *bufio.Writer, seed int64, hid int, cfg simcfg) (stats map[s
 			}
 			h.actions["silenced"] += k
 		}
+		if cfg.advsigs && rng.Intn(3) == 0 {
+			h.advStep()
+		}
 		a := h.nodes[pick()]
 		if a.PendingFF {
 			h.fastForward(a)
@@ -408,7 +417,7 @@ func runHistory(out *bufio.Writer, seed int64, hid int, cfg simcfg) (stats map[s
 			h.submit(a)
 			if cfg.n == 1 {
 				a.Core.AddSelfEvent("")
-				a.Core.ProcessSigPool()
+				h.processSigPool(a)
 				h.after(a, true)
 			}
 			continue
@@ -416,7 +425,7 @@ func runHistory(out *bufio.Writer, seed int64, hid int, cfg simcfg) (stats map[s
 		if cfg.n == 1 {
 			if a.Core.Busy() {
 				a.Core.AddSelfEvent("")
-				a.Core.ProcessSigPool()
+				h.processSigPool(a)
 				h.after(a, true)
 			}
 			continue
@@ -496,6 +505,7 @@ func main() {
 	cache := flag.Int("cache", 10000, "store cache size")
 	dyn := flag.Bool("dyn", false, "joins and leaves")
 	faults := flag.Bool("faults", false, "inject store failures on new-event writes")
+	advsigs := flag.Bool("advsigs", false, "extra harness-driven validator gossiping adversarial block signatures (C09)")
 	dagrun := flag.Bool("dagrun", false, "C03: re-feed the global DAG under orders / cuts / stores / batchings")
 	thorough := flag.Bool("thorough", false, "more variants")
 	badgerCache := flag.Int("badgercache", 0, "node 0 uses a BadgerStore with this (small) cache size and is not compared with the model")
@@ -511,7 +521,7 @@ func main() {
 		if i%7 != 0 && n < 3 && *maxn >= 3 {
 			n = 3 + master.Intn(*maxn-2)
 		}
-		cfg := simcfg{n: n, steps: *steps/2 + master.Intn(*steps), dyn: *dyn, fairTail: *tail, cache: *cache, faults: *faults, dagrun: *dagrun, thorough: *thorough, badgerCache: *badgerCache, ff: *ff, live: *live, witness: *witness}
+		cfg := simcfg{n: n, steps: *steps/2 + master.Intn(*steps), dyn: *dyn, fairTail: *tail, cache: *cache, faults: *faults, advsigs: *advsigs, dagrun: *dagrun, thorough: *thorough, badgerCache: *badgerCache, ff: *ff, live: *live, witness: *witness}
 		runHistory(out, master.Int63(), i, cfg)
 	}
 }
